@@ -470,6 +470,9 @@ class Explore(Shutdown):
              "call": [1, "setRemote", 1], "k": 9, "closer": "same"},
             {"x": 1, "policy": "balanced", "media": ["audio"], "bundle": True, "hist": "dir", "dir": "sendonly",
              "call": [0, "nop", 0], "k": 9, "closer": "both"},
+            # round 5, seed sctp-stop-early-in-shutdown: the peer's SCTP stack sends SHUTDOWN, close() before SHUTDOWN COMPLETE
+            {"x": 1, "policy": "balanced", "media": ["dc"], "bundle": True, "hist": "sctpinject", "inj": "shutdown",
+             "stage": "open", "steps": 2, "call": [0, "yield", 0], "k": 9, "closer": "same"},
             # transceiver.stop() by the application racing close()
             {"x": 1, "policy": "max-bundle", "media": ["dc", "audio", "video"], "bundle": True, "call": [0, "trxStop", 0], "k": 1,
              "closer": "same"},
@@ -561,10 +564,19 @@ class Explore(Shutdown):
         fam("stopped", av, ["both", "same"] if quick else every)
         fam("stopearly", ["audio"], ["same", "both"] if quick else every)
         fam("stopearly", avd, ["same"] if quick else every)
+        # the remote SCTP stack does something aiortc's own never does (a chunk injected through the remote's real transport)
+        for inj in X.INJECTS:
+            fam("sctpinject", ["dc"], ["same"] if quick else ["same", "both", "same2"], inj=inj, stage="open",
+                steps=0)
+            for steps in ((2,) if quick else (1, 2, 3, 5, 8)):
+                fam("sctpinject", ["dc"], ["same"], inj=inj, stage="open", steps=steps)
+            fam("sctpinject", ["dc"] if quick else ["audio", "dc"], ["same"], inj=inj, stage="early", steps=1)
         if not quick:
             for _ in range(400):
                 hist = rng.choice(X.HISTORIES[1:])
                 media = rng.choice([["audio"], ["audio", "dc"], ["audio", "video"], ["audio", "video", "dc"], ["dc", "audio"]])
+                if hist == "sctpinject":
+                    continue
                 if hist in ("abort", "abortclose") and "dc" not in media:
                     media = media + ["dc"]
                 cfg = dict(policy=rng.choice(X.POLICIES), media=media, bundle=rng.random() < 0.7, hist=hist)
@@ -584,7 +596,9 @@ class Explore(Shutdown):
         if case.get("hist"):
             if r.get("void"):
                 return "void:" + case["hist"]
-            extra = case.get("dir") or case.get("extra") or "+".join(case.get("after", []))
+            extra = case.get("dir") or case.get("extra") or case.get("inj") or "+".join(case.get("after", []))
+            if case.get("inj"):
+                extra += "@" + case.get("stage", "open")
             return f"{case['hist']}:{extra}:{case['call'][1]}@{case['call'][0]}:{case['closer']}"
         if r.get("void"):
             return "void:" + r["void"].split(" raised")[0][:30]
@@ -602,6 +616,8 @@ class Explore(Shutdown):
         ks = range(0, min(case["k"], 8)) if not case.get("hist") else sorted({0, case["k"] // 2} - {case["k"]})
         for k in ks:
             yield dict(case, k=k)
+        if case.get("steps"):
+            yield dict(case, steps=0)
         if len(case.get("after", [])) > 1:
             for i in range(len(case["after"])):
                 yield dict(case, after=case["after"][:i] + case["after"][i + 1:])
